@@ -64,6 +64,12 @@ class Writer:
         if s is None:
             return 0
         if s not in self.strings:
+            if len(s) >= 32:
+                # an unreferenced neighbour with a long common prefix: the prefix length in front of `s` then needs two
+                # (from 32) or three (from 1024) 5-bit groups
+                decoy = s[:-1] + ("~" if s[-1] != "~" else "_")
+                if decoy not in self.strings:
+                    self.strings.append(decoy)
             self.strings.append(s)
         return self.strings.index(s)
 
